@@ -29,6 +29,7 @@ type Unit struct {
 	vc            *VC
 	Err           string
 	Pos           string
+	fn            *ssa.Function // sweep units: the function that was swept
 }
 
 func (x *Exec) newTopFrame(fn *ssa.Function, st *State) *Frame {
@@ -369,7 +370,7 @@ func (x *Exec) bindParams(env *SpecEnv, fc *FuncContract, fn *ssa.Function, fr *
 // call-site contracts (and monitors) found in it.
 func sweepFunc(p *Prog, db *ContractDB, fn *ssa.Function, prop string, sweepSet map[*ssa.Function]bool) (u *Unit) {
 	t0 := time.Now()
-	u = &Unit{Kind: "sweep", Name: shortFn(fn), Pos: p.pos(fn.Pos())}
+	u = &Unit{Kind: "sweep", Name: shortFn(fn), Pos: p.pos(fn.Pos()), fn: fn}
 	x := newExec(p, db)
 	x.prop = prop
 	x.mode = "sweep"
